@@ -54,6 +54,12 @@ pub struct Case {
     /// validly coded body: the two fields are reported like any other (decoding the body does not take them away)
     #[serde(default)]
     pub coded: u8,
+    /// the response is reached through a followed redirect whose own head carries other fields: none of them belongs to it
+    #[serde(default)]
+    pub via_redirect: bool,
+    /// a `Connection` field that names another field of the same response is added: both are reported like any other field
+    #[serde(default)]
+    pub conn_names: bool,
 }
 
 pub struct C04;
@@ -227,9 +233,9 @@ identical result for every segmentation. non-trivial = >=2 fields and one of {du
             proptest::collection::vec(seg(), 1..4),
             // special long-line classes
             prop_oneof![8 => Just(0u8), 2 => Just(1u8), 1 => Just(2u8)],
-            (prop_oneof![12 => Just(0u8), 1 => Just(1u8), 1 => Just(2u8), 1 => Just(3u8)], prop_oneof![5 => Just(0u8), 1 => Just(1u8), 1 => Just(2u8)]),
+            (prop_oneof![12 => Just(0u8), 1 => Just(1u8), 1 => Just(2u8), 1 => Just(3u8)], prop_oneof![5 => Just(0u8), 1 => Just(1u8), 1 => Just(2u8)], prop::bool::weighted(0.15), prop::bool::weighted(0.15)),
         )
-            .prop_map(|(status, version, reason, max_headers, fill, mut headers, chunked, segs, long, (big_limit, coded))| {
+            .prop_map(|(status, version, reason, max_headers, fill, mut headers, chunked, segs, long, (big_limit, coded, via_redirect, conn_names))| {
                 match long {
                     1 => {
                         if let Some(h) = headers.first_mut() {
@@ -254,6 +260,8 @@ identical result for every segmentation. non-trivial = >=2 fields and one of {du
                     segs,
                     big_limit,
                     coded,
+                    via_redirect,
+                    conn_names,
                 }
             })
             .boxed()
@@ -298,6 +306,14 @@ identical result for every segmentation. non-trivial = >=2 fields and one of {du
             count += 2;
             coded_body = body;
             ctx.label("coded-body-with-content-encoding-and-length");
+        }
+        if case.conn_names && !fields.is_empty() && count + 1 <= m {
+            let named = fields[0].0.clone();
+            let at = (case.fill as usize / 3) % (fields.len() + 1);
+            fields.insert(at, ("Connection".to_string(), format!("{named}, close").into_bytes(), false));
+            n_other += 1;
+            count += 1;
+            ctx.label("connection-field-names-another-field");
         }
         let te_pos = if case.chunked { Some(((case.fill as usize ^ 0x5a5a) % (n_other + 1)).min(n_other)) } else { None };
 
@@ -377,7 +393,16 @@ identical result for every segmentation. non-trivial = >=2 fields and one of {du
                 3 => usize::MAX,
                 _ => m,
             };
-            let (res, _net, _guard) = get_scripted(events, |rb| rb.max_headers(limit).follow_redirects(![301u16, 302, 303, 307, 308].contains(&case.status)));
+            let followed = [301u16, 302, 303, 307, 308].contains(&case.status);
+            let (res, _net, _guard) = if case.via_redirect && !followed {
+                ctx.label("reached-through-a-redirect-with-its-own-fields");
+                let hop = b"HTTP/1.1 302 Found\r\nLocation: /next\r\n\r\n".to_vec();
+                let (guard, net) = crate::transport::serve_scripts(vec![vec![Ev::Data(hop), Ev::Eof], events]);
+                let res = attohttpc::get(crate::client::BASE_URL).proxy_settings(crate::client::no_proxy()).max_headers(limit).send();
+                (res, net, guard)
+            } else {
+                get_scripted(events, |rb| rb.max_headers(limit).follow_redirects(!followed))
+            };
             // (following is left on for every status the client never follows, the other 3xx codes included)
             let resp = match res {
                 Ok(r) => r,
